@@ -570,7 +570,7 @@ class StmtMixin:
                 for k_, s_, v_ in res_:
                     if k_ == "raise" and isinstance(v_, Raised) and not getattr(v_, "noted", False):
                         v_.noted = True
-                        self.event(s_, fr, "raised", v_.node if v_.node is not None else stmt, (v_.exc, v_.msg))
+                        self.event(s_, fr, "raised", v_.node if v_.node is not None else stmt, (v_.exc, v_.msg, v_))
                 nxt.extend(res_)
             cur = nxt
             lk = getattr(self.model, "loop_key", None)
